@@ -679,6 +679,145 @@ int main(void) { ferret_%(T)s a = {%(a)s}, b = {%(b)s}, q, r; ferret_%(T)s_div_p
     want = '%0*x %0*x' % (16 * nl, eq, 16 * nl, er)
     return {'native': so.strip(), 'expected': want, 'reproduced': rc != 0 or so.strip() != want, 'rc': rc, 'stderr': se[-300:]}
 
+
+# ------------------------------------------------------------------------------------------------ pow: loop induction
+def ob_pow_loop(cx, T, timeout_ms):
+    """ferret_<T>_pow (256-bit types) as inductive obligations on the real square-and-multiply loop, over the CONTRACT
+    of the type's own multiply (ferret_<T>_mul writes a*b mod 2^N; discharged by the mul obligations) and of
+    is_zero: INIT result = 1, exponent copy = exp, base = base (a negative signed exponent returns 0 at once);
+    STEP one iteration from an ARBITRARY (result, base, e != 0): result' = odd(e) ? result*base : result,
+    base' = base*base, e' = e >> 1 (all mod 2^N); EXIT e = 0 returns result.  With the textbook argument
+    (result * base^e is invariant) this gives base^exp mod 2^N."""
+    nl, signed = TYPES[T]
+    N = 64 * nl
+    fname = '@ferret_%s_pow' % T
+    fn = cx.mod.funcs[fname]
+    header = loop_header(fn)
+    if header is None:
+        return 'violation', {'what': 'no loop found in %s' % fname}, 0
+    ex, solver = mk_exec(cx, timeout_ms)
+    ex.overrides['@ferret_is_zero_limbs'] = _is_zero_contract(nl)
+
+    def mul_contract(ex_, st_, a_, work_):
+        x = st_.mem.load(st_, a_[1], 8 * nl)
+        y = st_.mem.load(st_, a_[2], 8 * nl)
+        st_.mem.store(st_, a_[0], x * y, 8 * nl)
+        return None
+    ex.overrides['@ferret_%s_mul' % T] = mul_contract
+    st = ex.new_state()
+    B = [z3.BitVec('b%d' % i, 64) for i in range(nl)]
+    X = [z3.BitVec('e%d' % i, 64) for i in range(nl)]
+    rb, rx = put(st, 'base', B), put(st, 'exp', X)
+    ro = st.mem.alloc(8 * nl, name='out', kind='heap')
+    base, exp = val(B), val(X)
+    ex.stop_at = (fname, header)
+    pre = (exp >= 0) if signed else z3.BoolVal(True)
+    outs = ex.run(fname, [st.mem.ptr(ro), st.mem.ptr(rb), st.mem.ptr(rx)], pre=pre, st=st)
+    cx.funcs |= ex.encoded
+    paths = len(outs)
+    stopped = [o for o in outs if o.kind == 'stopped']
+    if not stopped:
+        return 'violation', {'what': 'pow never reaches its loop'}, paths
+    # locate the locals: the one holding the exponent copy and the one holding the running result (= 1) at the first
+    # arrival (the result is the sret object itself or a local, depending on how the function returns)
+    o0 = stopped[0]
+    fr = o0.state.frames[-1]
+
+    def find(term, cands):
+        for r in cands:
+            if r.size == 8 * nl:
+                v = o0.mem.load(o0.state, o0.mem.ptr(r), 8 * nl)
+                rr, _ = solver.check(list(o0.pc) + [v != term])
+                if rr == 'unsat':
+                    return r
+        return None
+    ecopy = find(exp, fr.allocas)
+    rres = find(bv(1, N), [o0.mem.regions[ro.id]] + list(fr.allocas))
+    if ecopy is None or rres is None:
+        return 'violation', {'what': 'INIT: at the loop header no local holds the exponent / no object holds the result 1'}, paths
+    for o in stopped:
+        res0 = o.mem.load(o.state, o.mem.ptr(o.mem.regions[rres.id]), 8 * nl)
+        b0 = o.mem.load(o.state, o.mem.ptr(o.mem.regions[rb.id]), 8 * nl)
+        e0 = o.mem.load(o.state, o.mem.ptr(o.mem.regions[ecopy.id]), 8 * nl)
+        r, m = solver.check(list(o.pc) + [z3.Or(res0 != 1, b0 != base, e0 != exp)])
+        if r == 'unknown':
+            return 'unknown', None, paths
+        if r == 'sat':
+            return 'violation', {'what': 'INIT: loop entered with result != 1, a changed base or a changed exponent', 'base': model_ints(m, B), 'exp': model_ints(m, X)}, paths
+    for o in outs:
+        if o.kind == 'ret' and signed:
+            # negative exponent: returns 0 at once (excluded by the precondition) - any other early return is wrong
+            r, m = solver.check(list(o.pc))
+            if r == 'sat':
+                return 'violation', {'what': 'pow returns without entering its loop for a non-negative exponent', 'exp': model_ints(m, X)}, paths
+    basest = stopped[0].state
+    R = [z3.BitVec('r%d' % i, 64) for i in range(nl)]
+    Bs = [z3.BitVec('bs%d' % i, 64) for i in range(nl)]
+    Es = [z3.BitVec('es%d' % i, 64) for i in range(nl)]
+
+    def patched(extra):
+        s = basest.clone()
+        f = s.frames[-1]
+        f.visits = {f.block: 1}
+        for i in range(nl):
+            s.mem.store(s, s.mem.ptr(s.mem.regions[rres.id], 8 * i), R[i], 8)
+            s.mem.store(s, s.mem.ptr(s.mem.regions[rb.id], 8 * i), Bs[i], 8)
+            s.mem.store(s, s.mem.ptr(s.mem.regions[ecopy.id], 8 * i), Es[i], 8)
+        s.pc = [c for c in s.pc] + extra
+        return s
+    res, bs, es = val(R), val(Bs), val(Es)
+    s1 = patched([es != 0])
+    outs1 = ex.explore([s1])
+    paths += len(outs1)
+    seen = False
+    for o in outs1:
+        if o.kind != 'stopped':
+            r, m = solver.check(list(o.pc))
+            if r == 'sat':
+                return 'violation', {'what': 'STEP: one iteration ends with %s (%s) instead of returning to the loop header' % (o.kind, o.detail)}, paths
+            continue
+        seen = True
+        r1 = o.mem.load(o.state, o.mem.ptr(o.mem.regions[rres.id]), 8 * nl)
+        b1 = o.mem.load(o.state, o.mem.ptr(o.mem.regions[rb.id]), 8 * nl)
+        e1 = o.mem.load(o.state, o.mem.ptr(o.mem.regions[ecopy.id]), 8 * nl)
+        odd = z3.Extract(0, 0, es) == 1
+        bad = z3.Or(r1 != z3.If(odd, res * bs, res), b1 != bs * bs, e1 != z3.LShR(es, 1))
+        r, m = solver.check(list(o.pc) + [bad])
+        if r == 'unknown':
+            return 'unknown', None, paths
+        if r == 'sat':
+            bv_, ev_ = model_ints(m, Bs), model_ints(m, Es)
+            b = sum(v << (64 * i) for i, v in enumerate(bv_))
+            return 'violation', {'what': 'STEP: one square-and-multiply iteration does not compute result,base,e := step(result,base,e)',
+                                 'state': {'result': model_ints(m, R), 'base': bv_, 'e': ev_},
+                                 'replay': replay_pow(T, bv_, 2, (b * b) % (1 << N))}, paths
+    if not seen:
+        return 'violation', {'what': 'STEP: no path returns to the loop header'}, paths
+    s2 = patched([es == 0])
+    outs2 = ex.explore([s2])
+    paths += len(outs2)
+    for o in outs2:
+        if o.kind != 'ret':
+            return 'violation', {'what': 'EXIT: with e = 0 pow does not return (%s)' % o.kind}, paths
+        r1 = o.mem.load(o.state, o.mem.ptr(o.mem.regions[ro.id]), 8 * nl)
+        r, m = solver.check(list(o.pc) + [r1 != res])
+        if r == 'unknown':
+            return 'unknown', None, paths
+        if r == 'sat':
+            return 'violation', {'what': 'EXIT: leaving the loop changes the result'}, paths
+    return 'held', None, paths
+
+
+def replay_pow(T, base, e, exp):
+    nl = TYPES[T][0]
+    body = '''#include <stdio.h>
+#include "bigint.h"
+int main(void) { ferret_%(T)s b = {%(b)s}, e = {{%(e)d}}, out; ferret_%(T)s_pow_ptr(&b, &e, &out);
+  for (int i = %(nl)d - 1; i >= 0; i--) printf("%%016llx", (unsigned long long)out.words[i]); printf("\\n"); return 0; }''' % {'T': T, 'b': _limbs_c(base), 'e': e, 'nl': nl}
+    rc, so, se = cir.run_c_driver('pow', body, ['core/bigint.c'])
+    want = '%0*x' % (16 * nl, exp)
+    return {'native': so.strip(), 'expected': want, 'reproduced': rc != 0 or so.strip() != want, 'rc': rc, 'stderr': se[-300:]}
+
 # ------------------------------------------------------------------------------------------------ native replays
 def replay_mul_add_small(nl, v, base, digit, exp):
     body = '''#include <stdio.h>
@@ -758,6 +897,8 @@ def _job(args):
             r = ob_cmp_u(cx, args[1], args[2])
         elif kind == 'negate':
             r = ob_negate(cx, args[1], args[2])
+        elif kind == 'powloop':
+            r = ob_pow_loop(cx, args[1], args[2])
         elif kind == 'divwrap':
             r = ob_divmod_wrapper(cx, args[1], args[2], args[3])
         else:
@@ -810,6 +951,8 @@ def main():
     for T in TYPES:
         for op in ('div', 'mod'):
             jobs.append(('divwrap', T, op, tmo))
+    for T in ('u256', 'i256'):
+        jobs.append(('powloop', T, tmo))
     digs = {'quick': {'u128': [1, 4], 'i128': [3], 'u256': [2], 'i256': [3]},
             'thorough': {'u128': [1, 5, 8], 'i128': [3, 8], 'u256': [2, 8], 'i256': [3, 8]}}[tier_]
     for T, ls in digs.items():
@@ -849,9 +992,9 @@ def main():
            'obligations': len(jobs), 'obligations_held': sum(1 for r in results if r['status'] == 'held'), 'obligation_table': rows,
            'functions_encoded': sorted(funcs), 'llvm_instructions_executed': agg.instrs, 'queries': agg.queries, 'queries_unsat': agg.unsat,
            'queries_sat': agg.sat, 'queries_unknown': agg.unknown, 'solver_s': round(agg.solver_s, 2),
-           'bounds': 'all limb values (2^128 / 2^256 operand spaces) for add sub and or xor not eq lt gt from/to 64; mul for 128-bit types; mul by schoolbook identity over uninterpreted 64x64->128 products (range-constrained); decimal from_string for the digit counts listed in obligation_table (every digit symbolic) plus ONE INDUCTIVE STEP of the accumulation (ferret_mul_add_small from an arbitrary limb state, bases 10/16/8/2), which covers texts of any length given that parse_uint only iterates that step; div/mod: INIT / STEP / EXIT obligations on the real shift-subtract loop of ferret_div_mod_u_limbs (one iteration from an arbitrary state satisfying rem < denom and rem <= numer >> (bit+1), bit symbolic in [0,N)), for 2 and 4 limbs, over contracts for is_zero / cmp_u / sub / negate that are discharged by their own obligations, plus the eight div/mod entry points over the contract of the divider (signed = SMT-LIB bvsdiv/bvsrem definition); limb loops fully unrolled',
+           'bounds': 'all limb values (2^128 / 2^256 operand spaces) for add sub and or xor not eq lt gt from/to 64; mul for 128-bit types; mul by schoolbook identity over uninterpreted 64x64->128 products (range-constrained); decimal from_string for the digit counts listed in obligation_table (every digit symbolic) plus ONE INDUCTIVE STEP of the accumulation (ferret_mul_add_small from an arbitrary limb state, bases 10/16/8/2), which covers texts of any length given that parse_uint only iterates that step; div/mod: INIT / STEP / EXIT obligations on the real shift-subtract loop of ferret_div_mod_u_limbs (one iteration from an arbitrary state satisfying rem < denom and rem <= numer >> (bit+1), bit symbolic in [0,N)), for 2 and 4 limbs, over contracts for is_zero / cmp_u / sub / negate that are discharged by their own obligations, plus the eight div/mod entry points over the contract of the divider (signed = SMT-LIB bvsdiv/bvsrem definition); 256-bit pow: INIT / STEP / EXIT on the real square-and-multiply loop over the contract of the type\'s multiply (one iteration from an arbitrary (result, base, e != 0)); limb loops fully unrolled',
            'explanation': 'The clang -O0 LLVM IR of runtime/core/bigint.c is executed symbolically from the *_ptr entry points the compiler calls, operands are regions of symbolic 64-bit limbs, and z3 decides equality with bit-vector arithmetic at width N. Counterexamples are replayed through a C driver built with ASan/UBSan.',
-           'not_covered': 'pow and to_string (not built); division by zero (excluded by assume: the wrappers return 0); the textbook induction that turns INIT/STEP/EXIT into quot = numer div denom is a paper argument; 256-bit mul and the signed multiply wrappers (solver unknown within the cap; attempted only in the thorough tier), shifts (no *_ptr entry point), whole-function hex/octal/binary from_string (their accumulation step is covered)'}
+           'not_covered': 'to_string and 128-bit pow (by-value register ABI of the 128-bit multiply; not built); pow: the textbook induction (result * base^e invariant) is a paper argument; division by zero (excluded by assume: the wrappers return 0); the textbook induction that turns INIT/STEP/EXIT into quot = numer div denom is a paper argument; 256-bit mul and the signed multiply wrappers (solver unknown within the cap; attempted only in the thorough tier), shifts (no *_ptr entry point), whole-function hex/octal/binary from_string (their accumulation step is covered)'}
     sys.exit(rep.finish(cov, ['clang-14 front end: -O0 IR is the source statement by statement; optimiser/code generator of the C compiler that builds libferret_runtime.a are trusted',
                               'LLVM semantics in lirsym/llvm.py (nsw/nuw ignored = wrapping); libc summaries malloc/free/memcpy/memset/strlen',
                               'z3 bit-vector theory; per-obligation timeout, unknown = inconclusive']))
